@@ -138,29 +138,150 @@ theorem foldl_accTax (ts : List Total) : ts.foldl accTax none = mergeAll ts := b
   | nil => rfl
   | cons t more => simp only [List.foldl_cons, accTax, mergeAll]; exact foldl_accTax_some more t
 
-/-! ### `ExchangeRate.Convert` at the destination precision is one exact rounding -/
+/-! ### `ExchangeRate.Convert` is one exact rounding at the destination precision -/
 
+/-- the result is at the destination currency's precision, whatever the amount -/
+theorem convert_exp (er : ExchangeRate) (a : Amount) : (er.convert a).exp = er.toExp := by
+  unfold ExchangeRate.convert
+  by_cases h : a.exp > er.toExp
+  · simp [h, Amount.multiply, Amount.rescaleUp]
+  · simp only [h, if_false]
+    unfold Amount.multiply Amount.rescaleUp Amount.rescale
+    by_cases h2 : er.toExp > a.exp
+    · have h3 : ¬ a.exp > er.toExp := h
+      simp [h2, h3]
+    · simp only [h2, if_false]
+      omega
+
+private theorem roundTo_eq_rha (e : ℕ) (q : ℚ) (N D : ℤ) (hD : 0 < D)
+    (h : q * ((pow10 e : ℤ) : ℚ) = (N : ℚ) / D) : Spec.roundTo e q = rha N D := by
+  rw [← goRound_div_pos N D hD]
+  unfold Spec.roundTo Spec.roundHalfAway
+  show goRound _ = goRound _
+  rw [h]
+
+/-- `Convert` = the exact product with the declared rate rounded half away from
+    zero to the destination precision, for an amount of *any* precision, inside
+    the float-exact domain: the product of the two integers `Multiply` receives
+    (the amount's value, scaled up to the destination precision when it is
+    coarser, and the rate's value) below 2^52, the power of ten it divides by
+    at most 10^22. -/
 theorem convert_exact (er : ExchangeRate) (a : Amount)
-    (hm : |a.value * er.amount.value| < 2 ^ 52) (he : er.amount.exp ≤ 22) (hx : a.exp = er.toExp) :
+    (hm : |a.value * pow10 (er.toExp - a.exp) * er.amount.value| < 2 ^ 52)
+    (he : er.amount.exp + (a.exp - er.toExp) ≤ 22) :
     er.convert a = convertSpec er.amount.toRat er.toExp a := by
   unfold ExchangeRate.convert convertSpec
-  rw [multiply_exact a er.amount hm he]
-  have hr : (a.mulX er.amount).rescale er.toExp = a.mulX er.amount := by
-    unfold Amount.rescale Amount.mulX
-    simp [hx]
-  rw [hr]
-  unfold Amount.mulX
-  rw [← hx]
-  congr 1
-  rw [← goRound_div_pos _ _ (pow10_pos _)]
-  unfold Spec.roundTo Spec.roundHalfAway Amount.toRat
-  show goRound _ = goRound _
-  congr 1
   have h1 : ((pow10 a.exp : ℤ) : ℚ) ≠ 0 := by exact_mod_cast pow10_ne a.exp
   have h2 : ((pow10 er.amount.exp : ℤ) : ℚ) ≠ 0 := by exact_mod_cast pow10_ne _
-  push_cast
-  field_simp
+  by_cases h : a.exp > er.toExp
+  · -- finer than the destination: extra decimals moved to the rate
+    simp only [h, if_true]
+    have hz : er.toExp - a.exp = 0 := by omega
+    rw [hz] at hm
+    have hup : (⟨a.value, er.toExp⟩ : Amount).rescaleUp er.toExp = ⟨a.value, er.toExp⟩ := by
+      simp [Amount.rescaleUp]
+    rw [hup, multiply_exact _ _ (by simpa [pow10] using hm) he]
+    unfold Amount.mulX
+    congr 1
+    symm
+    apply roundTo_eq_rha _ _ _ _ (pow10_pos _)
+    obtain ⟨d, hd⟩ : ∃ d, a.exp = er.toExp + d := ⟨a.exp - er.toExp, by omega⟩
+    have hd' : er.toExp + d - er.toExp = d := by omega
+    unfold Amount.toRat
+    simp only [hd, hd']
+    unfold pow10
+    push_cast
+    rw [pow_add, pow_add]
+    field_simp
+  · -- at or below the destination precision: raised first (integer scaling)
+    simp only [h, if_false]
+    obtain ⟨k, hk⟩ : ∃ k, er.toExp = a.exp + k := ⟨er.toExp - a.exp, by omega⟩
+    have hk' : er.toExp - a.exp = k := by omega
+    have hz : a.exp - er.toExp = 0 := by omega
+    rw [hz] at he
+    rw [hk'] at hm
+    have hup : a.rescaleUp er.toExp = ⟨a.value * pow10 k, er.toExp⟩ := by
+      unfold Amount.rescaleUp Amount.rescale
+      by_cases hk0 : k = 0
+      · subst hk0
+        have : ¬ er.toExp > a.exp := by omega
+        simp only [this, if_false]
+        cases a
+        simp only [pow10, pow_zero, mul_one, Amount.mk.injEq, true_and]
+        simpa using hk.symm
+      · have h3 : er.toExp > a.exp := by omega
+        have h4 : ¬ a.exp > er.toExp := by omega
+        simp [h3, h4, hk']
+    rw [hup, multiply_exact _ _ (by simpa using hm) (by simpa using he)]
+    unfold Amount.mulX
+    congr 1
+    symm
+    apply roundTo_eq_rha _ _ _ _ (pow10_pos _)
+    unfold Amount.toRat
+    simp only [hk]
+    unfold pow10
+    push_cast
+    rw [pow_add]
+    field_simp
 
+/-- the repaired `Convert` no longer depends on how the amount is written: the
+    same value at two precisions converts to the same result (before 6f2aa78
+    `100` JPY and `100.00` JPY gave 1.00 and 0.61 EUR at rate 0.0061) -/
+theorem convert_precision_irrelevant (er : ExchangeRate) (a b : Amount) (hab : a.toRat = b.toRat)
+    (hma : |a.value * pow10 (er.toExp - a.exp) * er.amount.value| < 2 ^ 52)
+    (hea : er.amount.exp + (a.exp - er.toExp) ≤ 22)
+    (hmb : |b.value * pow10 (er.toExp - b.exp) * er.amount.value| < 2 ^ 52)
+    (heb : er.amount.exp + (b.exp - er.toExp) ≤ 22) :
+    er.convert a = er.convert b := by
+  rw [convert_exact er a hma hea, convert_exact er b hmb heb]
+  unfold convertSpec
+  rw [hab]
+
+
+/-! ### a converted payment line against the specification -/
+
+/-- the float-exact domain of `convert_exact` for an optional amount -/
+def convDomain (r : ExchangeRate) (x : Option Amount) : Prop :=
+  ∀ a, x = some a →
+    |a.value * pow10 (r.toExp - a.exp) * r.amount.value| < 2 ^ 52 ∧ r.amount.exp + (a.exp - r.toExp) ≤ 22
+
+/-- what a side contributes according to the specification: the exact product
+    with the rate `q`, rounded once to `e` decimals; nothing when absent -/
+def specSide (q : ℚ) (e : ℕ) (x : Option Amount) : ℤ :=
+  match x with | none => 0 | some a => (convertSpec q e a).value
+
+theorem lineSide_converted (pl : PaymentLine) (cur : String) (rates : List ExchangeRate) (r : ExchangeRate)
+    (x : Option Amount) (hc : pl.currency ≠ "") (hne : pl.currency ≠ cur)
+    (hr : matchExchangeRate rates pl.currency cur = some r) (hd : convDomain r x) :
+    lineSide pl cur rates x = .ok (x.map (convertSpec r.amount.toRat r.toExp)) := by
+  unfold lineSide
+  rcases x with _ | a
+  · rfl
+  · obtain ⟨hm, he⟩ := hd a rfl
+    simp only [bne_iff_ne, ne_eq, hc, not_false_eq_true, if_true, Option.map_some]
+    unfold convert
+    simp only [beq_iff_eq, hne, if_false, hr]
+    rw [convert_exact r a hm he]
+
+theorem sideValue_spec (q : ℚ) (e : ℕ) (x : Option Amount) :
+    sideValue e (x.map (convertSpec q e)) = specSide q e x := by
+  unfold sideValue specSide
+  rcases x with _ | a
+  · rfl
+  · simp [convertSpec, Amount.rescale]
+
+theorem converted_line_total (pl : PaymentLine) (cur : String) (e : ℕ) (rates : List ExchangeRate)
+    (r : ExchangeRate) (lt : Amount) (hc : pl.currency ≠ "") (hne : pl.currency ≠ cur)
+    (hr : matchExchangeRate rates pl.currency cur = some r) (hre : r.toExp = e)
+    (hd : convDomain r pl.debit) (hcr : convDomain r pl.credit)
+    (h : pl.calculate cur e rates = .ok lt) :
+    lt = ⟨specSide r.amount.toRat e pl.debit - specSide r.amount.toRat e pl.credit, e⟩ := by
+  obtain ⟨d, c, h1, h2, h3⟩ := line_total pl cur e rates lt h
+  rw [lineSide_converted pl cur rates r _ hc hne hr hd] at h1
+  rw [lineSide_converted pl cur rates r _ hc hne hr hcr] at h2
+  simp only [Except.ok.injEq] at h1 h2
+  subst h1 h2
+  rw [h3, hre, sideValue_spec, sideValue_spec]
 
 theorem forall2_exp (cur : String) (e : ℕ) (rates : List ExchangeRate) (ls : List PaymentLine) (lts : List Amount)
     (hf : List.Forall₂ (fun l lt => l.calculate cur e rates = .ok lt) ls lts) : ∀ lt ∈ lts, lt.exp = e := by
